@@ -1,19 +1,20 @@
 (* C05 - the line editor refines an ideal editor over Unicode scalar values. Statements only.
    Rep cap e i: the editor e (bytes + char cursor) represents the ideal state i (list of well-formed chars + cursor) in a buffer of cap bytes. *)
-From EC Require Import Base Model.Utils Model.Editor Spec.Utf8Spec Spec.IdealEditor Proofs.EditorProofs.
+From EC Require Import Base Model.Utils Model.Input Model.Editor Model.Sink Model.Cli Spec.Utf8Spec Spec.IdealEditor Spec.Session
+  Proofs.EditorProofs Proofs.SinkOk Proofs.SafetyProofs Proofs.SessionProofs.
 
 (* one operation: the byte-level editor does not panic (Some), returns the ideal editor's result (accepted / moved) and
    ends in a state representing the ideal editor's next state - for every buffer size, every state, every operation *)
 Theorem C05_step : forall cap e i o, Rep cap e i -> eop_wf o ->
   exists e', ed_step e o = Some (e', snd (ideal_step cap i (to_iop o))) /\ Rep cap e' (fst (ideal_step cap i (to_iop o))).
-Proof. exact step_refines. Qed.
+Proof. exact EditorProofs.step_refines. Qed.
 Print Assumptions C05_step.
 
 (* every operation sequence from the empty editor, any length, any buffer size (0 and 1 included) *)
 Theorem C05_run : forall cap os, Forall eop_wf os ->
   exists e', ed_run (ed_new cap) os = Some (e', snd (ideal_run cap ideal0 (map to_iop os)))
              /\ Rep cap e' (fst (ideal_run cap ideal0 (map to_iop os))).
-Proof. intros cap os H. exact (run_refines cap os (ed_new cap) ideal0 (Rep_init cap) H). Qed.
+Proof. intros cap os H. exact (EditorProofs.run_refines cap os (ed_new cap) ideal0 (Rep_init cap) H). Qed.
 Print Assumptions C05_run.
 
 (* a character is accepted iff the line's UTF-8 length stays within the buffer; a rejected one changes nothing *)
@@ -28,6 +29,20 @@ Proof. exact insert_rejected. Qed.
 Print Assumptions C05_rejected_changes_nothing.
 
 (* non-vacuity: a 5-byte buffer, mixed widths, the euro sign is rejected when it no longer fits, insertion in the middle *)
+(* through the whole Cli: for every byte received, the edited line and cursor afterwards are those of the ideal line of the abstract
+   session after the decoded event (insert at the cursor, Backspace = left then remove, Left/Right, recall and completion replace
+   the line, Enter empties it) - every buffer size, feature set, command set, handler; working sink *)
+Theorem C05_cli : forall feats cs handler, cmdset_ok cs -> forall cap hcap b s a r s', byte b -> SRel cap hcap s a ->
+  api_process_byte okT feats cs handler b s = (r, s') ->
+  let a' := fst (astep_opt feats cs handler cap hcap a (snd (accept (ig s) b))) in
+  r = Ok tt /\ text (ed s') = ibytes (aline a') /\ cursor (ed s') = icur (aline a') /\ Rep cap (ed s') (aline a').
+Proof.
+  intros feats cs handler Hcs cap hcap b s a r s' Hb HS E. cbn zeta.
+  destruct (process_byte_refines feats cs handler Hcs cap hcap b s a r s' Hb HS E) as (-> & (R & _) & _).
+  split; [reflexivity|]. pose proof R as (q1 & q2 & q3 & q4). split; [exact q2|]. split; [exact q3|exact R].
+Qed.
+Print Assumptions C05_cli.
+
 Example C05_nonvacuous :
   let os := [EInsert [[0x61]]; EInsert [[0xC3;0xA9]]; ELeft; EInsert [[0xE2;0x82;0xAC]]; EInsert [[0x62]]; ELeft; ELeft; ERemove; ERight; ERight; ERight] in
   Forall eop_wf os /\
